@@ -40,6 +40,7 @@ def run_grammar_models(ctx, evals, n_of, invs, par=3, workers=5):
                      timeout=3 * 3600)
         r["beh_path"] = beh
         r["N"] = n_of(e)
+        r["e"] = e
         r["samples"] = []
         for pr in r["prints"]:
             if pr.startswith('<<"SAMPLES", '):
@@ -56,12 +57,50 @@ def run_grammar_models(ctx, evals, n_of, invs, par=3, workers=5):
                 (" VIOLATED " + str(r["violated"])) if r["violated"] else ""))
     return res
 
+ALPHABETS = {
+    # literals, points, exponent-looking and imaginary-looking text, superscripts, signs
+    "lit": ["1", "5", ".", "e", "i", "+", "(", ")", "SUP2", "@", "!", "WS"],
+    # keyword letters around sin/sinh/asin/asinh/arsinh and a foreign character
+    "kw1": ["s", "i", "n", "h", "a", "r", "(", ")", "1", "OTHER"],
+    # pi / e / rad / exp / pow words
+    "kw2": ["p", "i", "e", "r", "a", "d", "x", "(", "1", ")", "^", "2"],
+    # aggregates and commas
+    "kw3": ["m", "a", "x", "i", "n", "e", "d", "(", ")", ",", "1"],
+    # operators of eval_i64 and the bracket notations
+    "ops": ["1", "<", ">", "&", "|", "%", "-", "LFLOOR", "RFLOOR", "LCEIL", "RCEIL", "DEG", "PI_SYM", "w"],
+}
+LEXER_INV = ["Progress", "TokenCount", "FnNeedsParen", "OnlyOffered", "LiteralForm"]
+
+def lexer_cfg(e, k, alphabet, invs, emit=True):
+    return ("CONSTANTS K = %d\nE = \"%s\"\nAlphabet = {%s}\nEmitOn = %s\nINIT Init\nNEXT Next\nCHECK_DEADLOCK FALSE\nINVARIANT %s\n"
+            % (k, e, ", ".join('"%s"' % c for c in alphabet), "TRUE" if emit else "FALSE", " ".join(invs + ["Emit"])))
+
+def run_lexer_models(ctx, evals, names, k, invs=None, par=4, workers=4):
+    """TLC MCLexer: every string of length <= k over each named alphabet, per evaluator."""
+    invs = LEXER_INV if invs is None else invs
+    res = {}
+    def one(arg):
+        e, an = arg
+        key = "lex_%s_%s" % (e, an)
+        beh = os.path.join(ctx.wd, "beh_%s.ndjson" % key)
+        r = vlib.tlc("MCLexer", lexer_cfg(e, k, ALPHABETS[an], invs), "%s_%s" % (ctx.prop, key), workers=workers, beh_out=beh, timeout=3 * 3600)
+        r.update({"beh_path": beh, "N": k, "e": e, "alphabet": an, "samples": []})
+        return key, r
+    with cf.ThreadPoolExecutor(max_workers=par) as ex:
+        for key, r in ex.map(one, [(e, an) for e in evals for an in names]):
+            vlib.tlc_ok(r, "MCLexer %s" % key)
+            res[key] = r
+            log("TLC MCLexer %s K=%d: %d distinct strings, %.0fs%s" % (key, k, r["distinct"], r["wall_s"], (" VIOLATED " + str(r["violated"])) if r["violated"] else ""))
+    return res
+
 def replay_jobs(ctx, binary, profile, models, opts, shards_per_e=3):
     jobs = []
-    for e, r in models.items():
-        for s in range(shards_per_e):
-            tag = "%s_%s_%d" % (profile, e, s)
-            j = {"mode": "replay", "e": e, "beh": r["beh_path"], "vocab": os.path.join(WORK, "vocab.json"), "shard": s, "nshards": shards_per_e, "start": 0,
+    for key, r in models.items():
+        e = r.get("e", key)
+        for s in range(shards_per_e if r["beh"] > 2000 else 1):
+            nsh = shards_per_e if r["beh"] > 2000 else 1
+            tag = "%s_%s_%d" % (profile, key, s)
+            j = {"mode": "replay", "e": e, "beh": r["beh_path"], "vocab": os.path.join(WORK, "vocab.json"), "shard": s, "nshards": nsh, "start": 0,
                  "out": os.path.join(ctx.wd, "findings_%s.ndjson" % tag), "events": os.path.join(ctx.wd, "events_%s.ndjson" % tag),
                  "stats": os.path.join(ctx.wd, "stats_%s.ndjson" % tag), "hb": os.path.join(ctx.wd, "hb_%s" % tag),
                  "jobfile": os.path.join(ctx.wd, "job_%s.json" % tag), "seed": ctx.seed, "tier": ctx.tier}
@@ -93,12 +132,14 @@ def merge_rules(stats):
             out[k] = out.get(k, 0) + v
     return out
 
-def grammar_check(ctx, cats, n_quick, n_thorough, opts, evals=EVALS, invs=None, level="model_checking", extra_cov=None, profiles=("debug", "release")):
+def grammar_check(ctx, cats, n_quick, n_thorough, opts, evals=EVALS, invs=None, level="model_checking", extra_cov=None, profiles=("debug", "release"), lexer=None):
     prop = ctx.prop
     invs = invs if invs is not None else GRAMMAR_INV.get(prop, [])
     vlib.vocab_json()
     n_of = (lambda e: n_quick.get(e, n_quick["*"])) if ctx.quick() else (lambda e: n_thorough.get(e, n_thorough["*"]))
     models = run_grammar_models(ctx, evals, n_of, invs)
+    if lexer:
+        models.update(run_lexer_models(ctx, evals, lexer["alphabets"], lexer["k_quick"] if ctx.quick() else lexer["k_thorough"], lexer.get("invs")))
     spec_viol = [(e, r["violated"]) for e, r in models.items() if r["violated"]]
     all_findings, all_stats = [], []
     for profile in profiles:
@@ -123,7 +164,7 @@ def grammar_check(ctx, cats, n_quick, n_thorough, opts, evals=EVALS, invs=None, 
     nviol = vlib.report(prop, mine)
     for e, inv in spec_viol:
         print("VIOLATION property=%s replay=%s" % (prop, models[e]["log"]))
-        log("  the specification itself violates %s for E=%s" % (inv, e))
+        log("  the specification itself violates %s for %s" % (inv, e))
         nviol += 1
     trace_cats = {"trace_status": {"C03"}, "trace_ticks": {"C02"}, "trace_pure": {"C16"}}
     tmine = [f for f in tv["rejections"] if prop in trace_cats.get(f["cat"], {prop}) or f["cat"] == "trace_value"]
@@ -135,7 +176,7 @@ def grammar_check(ctx, cats, n_quick, n_thorough, opts, evals=EVALS, invs=None, 
            "compared": sum_stats(all_stats, "compared"), "matched": sum_stats(all_stats, "matched"), "not_asserted": sum_stats(all_stats, "not_asserted"),
            "not_asserted_rules": merge_rules(all_stats),
            "rule": "every viable token-kind sequence of length <= N over each evaluator's complete kind vocabulary plus the foreign token (TLC, exhaustive), rendered with %d operand/spelling assignments x placeholders, in %s builds; non-trivial = distinct (evaluator,input,placeholder) whose tree has >= %d operator nodes (or, for rejected input, >= 2 tokens)" % (opts.get("assignments", 2), "/".join(profiles), opts.get("nontrivial_min_ops", 2)),
-           "N": {e: r["N"] for e, r in models.items()}, "invariants_checked": invs, "exhaustive": True,
+           "N": {e: r["N"] for e, r in models.items()}, "invariants_checked": invs + (LEXER_INV if lexer else []), "exhaustive": True,
            "samples": [x for s in all_stats for x in s.get("samples", [])][:8],
            "max_steps_per_char": max([s.get("max_ticks_ratio", 0) for s in all_stats] + [0]),
            "tlc": {e: {"states": r["states"], "distinct": r["distinct"], "depth": r["depth"], "wall_s": r["wall_s"]} for e, r in models.items()},
@@ -237,7 +278,8 @@ def c01(ctx):
     return grammar_check(ctx, {"panic", "abort"}, {"*": 4}, {"*": 6, "f64": 6}, {"assignments": 2, "full_placeholders": True, "event_every": 50, "event_cap": 2000}, invs=[])
 
 def c03(ctx):
-    return grammar_check(ctx, {"ok_on_reject", "err_on_defined"}, {"*": 5}, {"*": 6, "f64": 7}, {"assignments": 2, "event_every": 100, "event_cap": 2000, "nontrivial_min_ops": 1})
+    return grammar_check(ctx, {"ok_on_reject", "err_on_defined"}, {"*": 5}, {"*": 6, "f64": 7}, {"assignments": 2, "event_every": 100, "event_cap": 2000, "nontrivial_min_ops": 1, "reject_suffixes": 2},
+                         lexer={"alphabets": ["lit", "kw1", "kw2", "kw3", "ops"], "k_quick": 3, "k_thorough": 5})
 
 def c04(ctx):
     return grammar_check(ctx, {"value"}, {"*": 5}, {"*": 6, "f64": 7}, {"assignments": 3, "event_every": 100, "event_cap": 2000, "nontrivial_min_ops": 2})
